@@ -18,7 +18,15 @@ const ruleText = "a case is one sandbox (component fst|ds|dsh|upd, root at depth
 	"dsh: a history of calls on ONE DirStructure tree (ChildDir with plain, multi-element and escaping names on any node; Ensure on any node; EnsureAbsPath/EnsureRelPath/EnsureRelDir " +
 	"aimed at every element (in particular the base name) of the names children were registered with, below the child's parent, from the root, or through another node; generic names); " +
 	"the directory content is emptied before every call, created directories are compared with their modes. upd: storage dir as top-level structure or (variant nested) as a child node of a structure rooted at its parent. " +
-	"A separate stream (implementation + oracle only) has NUL bytes, 300-byte segments, NAME_MAX boundaries inside and outside the root and climbs of depth+6. lib cases compare filepath.Clean/Dir/Join/Rel and " +
+	"Round 3b: (1) archives as SEQUENCES of entries ('unz' entries carry a directory flag of their own, '<name>:d'): an in-scope directory entry (by trailing separator or by attributes) " +
+	"followed, directly or after its content, by a name that extends the directory's name textually and climbs out by len(dir)+1.. parent references; textual extensions without separator; the hostile entry first / in the middle; " +
+	"duplicates (file/file, dir/dir, file then dir and the reverse, the same file under four spellings); a file entry followed by entries below it; './', '//', 'x/../' spellings of the directory; " +
+	"(2) the name alphabet: every traversal shape composed with EACH of backslash, colon, full-width solidus, division slash, fraction slash, %2f, %5c, CR, LF, CRLF, TAB, ';', '|' in place of '/' (all separators, all but the first, every other one, " +
+	"after a real directory element) and with look-alikes of '..' ('.. ', '...', '%2e%2e', full-width stops, overlong UTF-8, '..;', '..%00'); for all components; " +
+	"(3) names built from the root's own absolute path (token @R, expanded to the real root path for the implementation and to the virtual one for model and monitor): k parent references (k = depth, depth+1, depth+2 from the directory the name is resolved in, sometimes fewer), " +
+	"a foreign directory ('mirror' at the sandbox top holds <mirror>/<absolute root path>/ with a well-formed decoy, 'sub', 'tmp/thing_v1-0-0'; or a sibling), the complete root path, a rest — for fstree keys and query prefixes, DirStructure paths and ChildDir names, zip entries, scan roots (absolute and cwd-relative); " +
+	"only where the embedded path starts outside the root and no parent reference follows it (both worlds then agree). " +
+	"A separate stream (implementation + oracle only, also NUL in place of the separator / after '..') has NUL bytes, 300-byte segments, NAME_MAX boundaries inside and outside the root and climbs of depth+6. lib cases compare filepath.Clean/Dir/Join/Rel and " +
 	"path.Base with the model on every string over {'/','.','a'} up to length 6 (pairs up to length 3) and on random strings. " +
 	"A case is non-trivial if at least one of its names contains a parent reference, an absolute prefix or a sibling name; distinct by the hash of its lines."
 
@@ -33,6 +41,8 @@ type gctx struct {
 	depth    int
 	vroot    string
 	hostile  bool
+	vcwd     string
+	extraUp  int // levels between the root and the directory the name is resolved in (2 for zip entries: <root>/tmp/<unpack dir>)
 }
 
 func pick(rng *rand.Rand, xs []string) string { return xs[rng.Intn(len(xs))] }
@@ -68,10 +78,62 @@ func (g *gctx) siblings() []string {
 	return []string{g.rootName + "-other", g.rootName + "x", "other", g.rootName + "-old", g.rootName + "-new", g.rootName + ".", g.rootName + " "}
 }
 
+// tokOK: may a name that embeds the root's absolute path (rootTok) be used where relative names are resolved in the
+// (virtual) directory base?  The real root path has more elements than the virtual one, so the two worlds agree only
+// if (1) the embedded path starts at a place OUTSIDE the root (the unchanged code then refuses the name: nothing is
+// created along a path whose elements differ between the worlds) and (2) no parent reference follows it (none of its
+// elements is popped again).
+func (g *gctx) tokOK(base, name string) bool {
+	full := name
+	if !strings.HasPrefix(name, "/") {
+		full = base + "/" + name
+	}
+	root := resolveAbs(g.vroot)
+	var st []string
+	seenTok := false
+	for _, sg := range strings.Split(full, "/") {
+		switch {
+		case strings.Contains(sg, rootTok):
+			if seenTok || sg != rootTok || under(st, root) {
+				return false
+			}
+			seenTok = true
+			st = append(st, sg)
+		case sg == "" || sg == ".":
+		case sg == "..":
+			if seenTok {
+				return false
+			}
+			if len(st) > 0 {
+				st = st[:len(st)-1]
+			}
+		default:
+			st = append(st, sg)
+		}
+	}
+	return true
+}
+
 // relName generates a relative name (key, entry name, relative path) and the name of its class.
 func (g *gctx) relName() (string, string) {
+	n, cls := g.relName0()
+	base := g.vroot
+	if g.extraUp == 2 {
+		base += "/tmp/thing_v1-0-0"
+	}
+	if strings.Contains(n, rootTok) && !g.tokOK(base, n) {
+		return g.benign(), "benign"
+	}
+	return n, cls
+}
+
+func (g *gctx) relName0() (string, string) {
 	rng := g.rng
-	switch x := rng.Intn(100); {
+	switch x := rng.Intn(118); {
+	case x >= 109:
+		return g.embedRoot(), "embed-root"
+	case x >= 100:
+		return g.altSep()
 	case x < 14:
 		return g.benign(), "benign"
 	case x < 24:
@@ -163,8 +225,275 @@ func (g *gctx) relName() (string, string) {
 	}
 }
 
+// Characters that SOME layer reads as a separator or as something special, while filepath.Join / Clean / Rel on
+// POSIX — and the file system — treat them as ordinary bytes of one name: the backslash, the colon (drive / stream
+// separator), Unicode solidus look-alikes (full-width solidus U+FF0F, division slash U+2215, fraction slash U+2044),
+// URL-encoded separators, CR / LF / TAB, the ';' and '|' of path lists.
+var altSeps = []string{"\\", "\\", "\\", ":", "\xef\xbc\x8f", "\xe2\x88\x95", "\xe2\x81\x84", "%2f", "%2F", "%5c", "\r", "\n", "\r\n", "\t", ";", "|", "\\\\"}
+
+// Look-alikes of the parent reference: with trailing dots / spaces (stripped by Windows), URL-encoded, full-width
+// full stops, overlong UTF-8, with a ';' parameter.
+var altDotDots = []string{".. ", "..  ", "...", ".. .", " ..", "%2e%2e", ".%2e", "%2e.", "..%00", "\xef\xbc\x8e\xef\xbc\x8e", "\xc0\xae\xc0\xae", "..;", "..\r", "..\n", "..."}
+
+// climbSegs: k parent references followed by a target outside (sibling, ancestor note, decoy, new name).
+func (g *gctx) climbSegs(k int) []string {
+	rng := g.rng
+	var s []string
+	for i := 0; i < k; i++ {
+		s = append(s, "..")
+	}
+	switch rng.Intn(4) {
+	case 0:
+		s = append(s, pick(rng, g.siblings()), pick(rng, decoyPool))
+	case 1:
+		s = append(s, pick(rng, []string{"x", "escaped.txt", "note.txt", "top.txt", "new"}))
+	case 2:
+		s = append(s, pick(rng, []string{"dir", "new", "other"}), pick(rng, insidePool))
+	default:
+		s = append(s, g.rootName) // may re-enter the root
+		if rng.Intn(2) == 0 {
+			s = append(s, pick(rng, insidePool))
+		}
+	}
+	return s
+}
+
+// altSep composes a traversal (climb of 1..depth+3 (+extraUp) parent references, possibly after descending into a
+// directory first) with EACH of the alternative separators in place of '/' — all separators, only those after the
+// first element, or every other one — or with look-alikes in place of "..".
+func (g *gctx) altSep() (string, string) {
+	rng := g.rng
+	g.hostile = true
+	k := 1 + rng.Intn(g.depth+3+g.extraUp)
+	var pre []string
+	if rng.Intn(3) == 0 {
+		pre = []string{pick(rng, []string{"sub", "a", "d", "tmp", "all"})}
+		k++
+	}
+	segs := append(pre, g.climbSegs(k)...)
+	if rng.Intn(4) == 0 {
+		// the separators stay, the parent references are look-alikes
+		dd := pick(rng, altDotDots)
+		for i, sg := range segs {
+			if sg == ".." && (rng.Intn(5) != 0) {
+				segs[i] = dd
+			}
+		}
+		name := strings.Join(segs, "/")
+		if rng.Intn(6) == 0 {
+			name = "/" + name
+		}
+		return name, "altdots"
+	}
+	sep := pick(rng, altSeps)
+	mode := rng.Intn(4)
+	var b strings.Builder
+	for i, sg := range segs {
+		if i > 0 {
+			switch {
+			case mode == 0, mode == 1 && i > 1, mode == 2 && i%2 == 1, mode == 3 && i > len(pre) && len(pre) > 0:
+				b.WriteString(sep)
+			case mode == 3 && len(pre) == 0:
+				b.WriteString(sep)
+			default:
+				b.WriteString("/")
+			}
+		}
+		b.WriteString(sg)
+	}
+	name := b.String()
+	switch rng.Intn(8) {
+	case 0:
+		name += "/"
+	case 1:
+		name += sep
+	case 2:
+		name = sep + name
+	}
+	return name, "altsep"
+}
+
+// embedRoot: a name built from the root's own absolute path — k parent references (k = distance to the sandbox top,
+// +1, +2 mostly; sometimes fewer), a foreign directory ("mirror": exists at the sandbox top and holds a decoy; or a
+// sibling), then the COMPLETE absolute path of the root again (token rootTok, expanded by executor / model / monitor),
+// optionally the unpack dir's relative path, then a rest.  The compiled path CONTAINS the root path but does not
+// start with it; its depth and its last elements equal those of paths inside the root.
+func (g *gctx) embedRoot() string {
+	rng := g.rng
+	g.hostile = true
+	k := g.depth + g.extraUp + rng.Intn(3)
+	if rng.Intn(5) == 0 {
+		k = 1 + rng.Intn(g.depth+g.extraUp)
+	}
+	var s []string
+	if rng.Intn(6) == 0 {
+		s = append(s, pick(rng, insidePool))
+		k++
+	}
+	for i := 0; i < k; i++ {
+		s = append(s, "..")
+	}
+	switch rng.Intn(8) {
+	case 0:
+		s = append(s, pick(rng, g.siblings()))
+	case 1:
+		s = append(s, "backup-"+g.rootName)
+	case 2: // no foreign directory: the root path directly below where the climb ended
+	default:
+		s = append(s, "mirror")
+	}
+	s = append(s, rootTok)
+	if g.comp == "upd" && rng.Intn(2) == 0 {
+		s = append(s, "tmp", "thing_v1-0-0")
+	}
+	switch rng.Intn(6) {
+	case 0:
+	case 1:
+		s = append(s, "")
+	case 2:
+		s = append(s, pick(rng, g.staticNames()))
+	default:
+		s = append(s, pick(rng, decoyPool))
+	}
+	return strings.Join(s, "/")
+}
+
+func hxEntries(es []zentry) string {
+	if len(es) == 0 {
+		return "_"
+	}
+	ys := make([]string, len(es))
+	for i, e := range es {
+		ys[i] = hx(e.name)
+		if e.name == "" {
+			ys[i] = "-"
+		}
+		if e.dir {
+			ys[i] += ":d"
+		}
+	}
+	return strings.Join(ys, ",")
+}
+
+// unzSeq: archives as SEQUENCES of entries in which the verdict on one entry could depend on the entries before it:
+// an in-scope directory entry followed (directly or later) by a name that extends the directory's name textually and
+// then climbs out; directory entries without trailing separator (directory by attributes); duplicates (file/file,
+// dir/dir, file then directory and the reverse); a file entry followed by an entry below it; the hostile entry first,
+// in the middle, last; "./" and "//" spellings; alternative separators after a real directory entry; names built
+// from the root's absolute path after a directory entry.
+func (g *gctx) unzSeq() ([]zentry, string) {
+	rng := g.rng
+	g.hostile = true
+	g.extraUp = 2
+	defer func() { g.extraUp = 0 }()
+	D := pick(rng, []string{"sub", "a", "d", "pkg", "a/b", "sub/x/y"})
+	dsegs := strings.Split(D, "/")
+	var es []zentry
+	// the chain of directory entries leading to D
+	byAttr := rng.Intn(3) == 0
+	for i := range dsegs {
+		n := strings.Join(dsegs[:i+1], "/")
+		if byAttr {
+			es = append(es, zentry{n, true})
+		} else {
+			es = append(es, zentry{n + "/", false})
+		}
+	}
+	filler := func() {
+		for i := rng.Intn(3); i > 0; i-- {
+			es = append(es, zentry{D + "/" + pick(rng, []string{"f", "g", "h", "readme"}), false})
+		}
+	}
+	up := func(min int) string {
+		k := len(dsegs) + min + rng.Intn(g.depth+4)
+		return strings.Join(g.climbSegs(k), "/")
+	}
+	cls := ""
+	switch x := rng.Intn(100); {
+	case x < 34:
+		cls = "dir-then-extends-and-climbs"
+		filler()
+		n := D + "/" + up(1)
+		dir := rng.Intn(3) == 0
+		if dir && rng.Intn(2) == 0 {
+			n, dir = n+"/", false
+		}
+		es = append(es, zentry{n, dir})
+		if rng.Intn(2) == 0 {
+			es = append(es, zentry{"later", false})
+		}
+	case x < 42:
+		cls = "dir-then-textual-extension"
+		es = append(es, zentry{D + pick(rng, []string{"..", "-x", ".", " ", "x"}) + "/" + up(1), false})
+	case x < 50:
+		cls = "hostile-first-or-middle"
+		h := zentry{D + "/" + up(1), false}
+		if rng.Intn(2) == 0 {
+			es = append([]zentry{h}, es...)
+		} else {
+			es = append(es[:1:1], append([]zentry{h}, es[1:]...)...)
+		}
+		filler()
+	case x < 62:
+		cls = "duplicates"
+		switch rng.Intn(5) {
+		case 0:
+			es = append(es, zentry{D + "/f", false}, zentry{D + "/f", false})
+		case 1:
+			es = append(es, zentry{D + "/", false})
+		case 2:
+			es = append(es, zentry{D + "/f", false}, zentry{D + "/f/", false})
+		case 3:
+			es = append(es, zentry{D, false})
+		default:
+			es = append(es, zentry{D + "/f", false}, zentry{D + "/./f", false}, zentry{D + "//f", false}, zentry{D + "/x/../f", false})
+		}
+		if rng.Intn(2) == 0 {
+			es = append(es, zentry{D + "/" + up(1), false})
+		}
+	case x < 72:
+		cls = "file-then-entry-below"
+		es = append(es, zentry{D + "/f", false})
+		if rng.Intn(2) == 0 {
+			es = append(es, zentry{D + "/f/x", false})
+		}
+		es = append(es, zentry{D + "/f/" + up(2), rng.Intn(4) == 0})
+	case x < 80:
+		cls = "spellings"
+		sp := pick(rng, []string{"./" + D, D + "/.", D + "//", "x/../" + D, "/" + D})
+		es = append(es, zentry{sp + "/", false}, zentry{sp + "/" + up(1), false})
+	case x < 92:
+		cls = "dir-then-altsep"
+		sep := pick(rng, altSeps)
+		k := len(dsegs) + 1 + rng.Intn(g.depth+4)
+		n := D + "/" + strings.Join(g.climbSegs(k), sep)
+		if rng.Intn(3) == 0 {
+			n = D + sep + strings.Join(g.climbSegs(k), sep)
+		}
+		filler()
+		es = append(es, zentry{n, rng.Intn(5) == 0})
+	default:
+		cls = "dir-then-embed-root"
+		filler()
+		n := D + "/" + strings.Repeat("../", len(dsegs)) + g.embedRoot()
+		if !g.tokOK(g.vroot+"/tmp/thing_v1-0-0", n) {
+			n = D + "/" + up(1)
+		}
+		es = append(es, zentry{n, false})
+	}
+	return es, cls
+}
+
 // absName generates an absolute (virtual) path or a relative one for the APIs that take paths.
 func (g *gctx) absName() (string, string) {
+	n, cls := g.absName0()
+	if strings.Contains(n, rootTok) && !g.tokOK(g.vcwd, n) {
+		return g.vroot + "/" + g.benign(), "root+benign"
+	}
+	return n, cls
+}
+
+func (g *gctx) absName0() (string, string) {
 	rng := g.rng
 	switch x := rng.Intn(100); {
 	case x < 45:
@@ -194,6 +523,10 @@ func (g *gctx) absName() (string, string) {
 	case x < 88:
 		g.hostile = true
 		return pick(rng, []string{"/", "/dev/shm/verif-c18.never/x", "/var/tmp/verif-c18.never/x", SB, SB + "/", "//", "/.."}), "absolute"
+	case x < 93:
+		// the foreign tree that embeds the root's absolute path, named absolutely
+		g.hostile = true
+		return SB + "/mirror/" + rootTok + pick(rng, []string{"", "/", "/sub", "/sub/new", "/plain.txt", "/evil_v6-6-6", "/tmp/thing_v1-0-0/x", "/secret"}), "embed-root-abs"
 	default:
 		n, cls := g.relName()
 		return n, "relative+" + cls
@@ -230,8 +563,9 @@ func (g *gctx) dshOps(n int) []string {
 		parent int
 		name   string
 		vpath  string // as named: parent's path + "/" + name (unresolved)
+		tok    bool   // the path embeds the root's absolute path (rootTok): no parent references and no requests below it
 	}
-	nodes := []node{{-1, "", g.vroot}}
+	nodes := []node{{-1, "", g.vroot, false}}
 	idx := map[string]int{}
 	perms := []string{"700", "750", "755", "711", "770"}
 	var ops []string
@@ -243,12 +577,15 @@ func (g *gctx) dshOps(n int) []string {
 				name = "up"
 			}
 		}
+		if nodes[h].tok && (strings.Contains(name, "..") || strings.Contains(name, rootTok)) || strings.Contains(name, rootTok) && !g.tokOK(nodes[h].vpath, name) {
+			name, cls = "up", "plain"
+		}
 		ops = append(ops, fmt.Sprintf("chd %d %s %s", h, hx(name), pick(rng, perms)))
 		cnt("chd", cls)
 		k := fmt.Sprintf("%d/%s", h, name)
 		if _, ok := idx[k]; !ok {
 			idx[k] = len(nodes)
-			nodes = append(nodes, node{h, name, nodes[h].vpath + "/" + name})
+			nodes = append(nodes, node{h, name, nodes[h].vpath + "/" + name, nodes[h].tok || strings.Contains(name, rootTok)})
 		}
 	}
 	for len(ops) < n {
@@ -278,9 +615,23 @@ func (g *gctx) dshOps(n int) []string {
 		case x < 40:
 			ops = append(ops, fmt.Sprintf("hens %d", h))
 			cnt("hens", "node")
+		case nodes[h].tok:
+			// a node whose path embeds the root's path: Ensure (refused: it is outside), or a plain request below it
+			if rng.Intn(2) == 0 {
+				ops = append(ops, fmt.Sprintf("hens %d", h))
+				cnt("hens", "embed-root-node")
+			} else {
+				ops = append(ops, fmt.Sprintf("henr %d %s", h, hx(g.benign())))
+				cnt("henr", "embed-root-node")
+			}
 		case x < 75:
 			// aim at a registered child: an element of its name, requested below its parent
 			c := nodes[1+rng.Intn(len(nodes)-1)]
+			if c.tok || nodes[c.parent].tok {
+				ops = append(ops, fmt.Sprintf("hens %d", c.parent))
+				cnt("hens", "node")
+				continue
+			}
 			var segs []string
 			for _, sg := range strings.Split(c.name, "/") {
 				if sg != "" && sg != "." && sg != ".." {
@@ -317,14 +668,14 @@ func (g *gctx) dshOps(n int) []string {
 			}
 		case x < 83:
 			name, cls := g.relName()
-			if climbsOut(nodes[h].vpath + "/" + name) {
+			if climbsOut(nodes[h].vpath+"/"+name) || strings.Contains(name, rootTok) && !g.tokOK(nodes[h].vpath, name) {
 				name, cls = g.benign(), "benign"
 			}
 			ops = append(ops, fmt.Sprintf("henr %d %s", h, hx(name)))
 			cnt("henr", cls)
 		case x < 90:
 			name, cls := g.relName()
-			if climbsOut(nodes[h].vpath + "/" + name) {
+			if climbsOut(nodes[h].vpath+"/"+name) || strings.Contains(name, rootTok) && !g.tokOK(nodes[h].vpath, name) {
 				name, cls = g.benign(), "benign"
 			}
 			ops = append(ops, fmt.Sprintf("hend %d %s", h, hxList(strings.Split(name, "/"))))
@@ -342,6 +693,10 @@ func emitCase(r *hxlib.Run, emit func(hxlib.Case), comp, rootRel, variant, cwdRe
 	g := &gctx{r: r, rng: r.Rng, comp: comp, rootRel: rootRel}
 	segs := strings.Split(rootRel, "/")
 	g.rootName, g.depth, g.vroot = segs[len(segs)-1], len(segs), SB+"/"+rootRel
+	g.vcwd = SB
+	if cwdRel != "" {
+		g.vcwd = SB + "/" + cwdRel
+	}
 	if variant == "slash" {
 		g.vroot += "" // the structure's Path has the trailing slash; names are built from the clean root
 	}
@@ -417,8 +772,46 @@ func generate(r *hxlib.Run, emit func(hxlib.Case)) {
 			"chd 0 " + hx("./tmp") + " 750", "henr 0 " + hx("tmp")}
 	})
 
+	// round 3b: archives as sequences (an in-scope directory entry, then a name that extends it textually and climbs out;
+	// directory by attributes; duplicates; file then entry below), the name alphabet (backslashes and other bytes that some
+	// layer reads as separators), names built from the root's own absolute path (seeded C18-r3-1, r3-3, r3-2)
+	for _, variant := range []string{"plain", "nested"} {
+		emitCase(r, emit, "upd", "w/a/root", variant, "w", false, "corpus", func(g *gctx) []string {
+			g.hostile = true
+			z := func(es ...zentry) string { return "unz " + hxEntries(es) }
+			f := func(n string) zentry { return zentry{n, false} }
+			return []string{z(f("sub/"), f("sub/../../escaped-1.txt")), z(f("sub/"), f("sub/../../../../escaped-2.txt")),
+				z(f("a/"), f("a/b/"), f("a/b/../../../../../escaped-dir/")), z(f("sub/"), f("sub/f"), f("sub/../../../../../root-other/evil")),
+				z(zentry{"sub", true}, f("sub/f"), f("sub/../../../../x")), z(zentry{"sub", true}, f("sub-x/../../../../x")),
+				z(f("..\\x")), z(f("..\\..\\..\\x")), z(f("sub/"), f("sub/..\\..\\..\\..\\x")), z(zentry{"..\\..\\..\\dir", true}), z(f("..\\..\\..\\dir/")),
+				z(f("..:..:..:x")), z(f("..\xef\xbc\x8f..\xef\xbc\x8f..\xef\xbc\x8fx")), z(f("%2e%2e/%2e%2e/%2e%2e/x")), z(f(".. /.. /.. /x")), z(f("..%2f..%2f..%2fx")),
+				z(f("f"), f("f/x")), z(f("f"), f("f")), z(f("d/"), f("d/")), z(f("d/"), f("d")), z(f("d"), f("d/")), z(zentry{"d/", true}, f("d/g")),
+				z(f("../../../mirror/" + rootTok + "/tmp/thing_v1-0-0/x")), z(f("../../../../../mirror/" + rootTok + "/evil_v6-6-6")),
+				z(f("sub/"), f("sub/../../../../../../mirror/" + rootTok + "/x")),
+				"scan " + hx(SB+"/mirror/"+rootTok), "scan " + hx(SB+"/mirror/"+rootTok+"/sub"), "scan " + hx("mirror/"+rootTok), "scan " + hx(g.vroot+"/../../../mirror/"+rootTok)}
+		})
+	}
+	emitCase(r, emit, "fst", "w/a/root", "plain", "", false, "corpus", func(g *gctx) []string {
+		g.hostile = true
+		m := "../../../mirror/" + rootTok
+		return []string{"get " + hx(m+"/secret"), "gmt " + hx(m+"/secret"), "put " + hx(m+"/created/here"), "put " + hx(m+"/secret"), "del " + hx(m+"/secret"),
+			"qry " + hx(m), "qry " + hx(m+"/"), "qry " + hx(m+"/sec"), "get " + hx("../../../../mirror/"+rootTok+"/secret"), "get " + hx("../../"+rootTok+"/a"),
+			"get " + hx("../root-other/"+rootTok+"/secret"), "put " + hx("..\\..\\x"), "get " + hx("..\\root-other\\secret"), "qry " + hx("..\\"), "del " + hx("..:..:x"),
+			"put " + hx("d/..\\..\\..\\x"), "get " + hx("a")}
+	})
+	emitCase(r, emit, "ds", "w/a/root", "plain", "", false, "corpus", func(g *gctx) []string {
+		g.hostile = true
+		return []string{"ens r " + hx(SB+"/mirror/"+rootTok+"/sub/new"), "ens c " + hx(g.vroot+"/../../../mirror/"+rootTok+"/k"), "enr r " + hx("../../../mirror/"+rootTok+"/k"),
+			"end r " + hxList([]string{"..", "..", "..", "mirror", rootTok, "k"}), "enr r " + hx("..\\..\\k"), "ens r " + hx(g.vroot+"/..\\..\\k"), "end r " + hxList([]string{"..\\..", "k"})}
+	})
+	emitCase(r, emit, "dsh", "w/a/root", "plain", "", false, "corpus", func(g *gctx) []string {
+		g.hostile = true
+		return []string{"chd 0 " + hx("../../../mirror/"+rootTok) + " 700", "hens 1", "henr 1 " + hx("sub"),
+			"hena 0 " + hx(SB+"/mirror/"+rootTok+"/sub/new"), "chd 0 " + hx("..\\..\\evil") + " 750", "hens 2", "henr 0 " + hx("evil")}
+	})
+
 	// ---- generated cases ----------------------------------------------------------------------------
-	nCases := r.Budget(2000, 30000)
+	nCases := r.Budget(1500, 26000)
 	for ci := 0; ci < nCases; ci++ {
 		rootRel := pick(rng, rootRels)
 		comp := []string{"fst", "ds", "upd", "dsh"}[ci%4]
@@ -495,9 +888,14 @@ func generate(r *hxlib.Run, emit func(hxlib.Case)) {
 						}
 						ops = append(ops, "scan "+hx(name))
 						count("scan", cls)
+					} else if rng.Intn(4) == 0 {
+						es, cls := g.unzSeq()
+						ops = append(ops, "unz "+hxEntries(es))
+						count("unz-seq", cls)
 					} else {
 						k := 1 + rng.Intn(5)
 						var names []string
+						g.extraUp = 2
 						for j := 0; j < k; j++ {
 							var nm, cls string
 							if rng.Intn(3) == 0 || j < k-1 && rng.Intn(2) == 0 {
@@ -519,6 +917,7 @@ func generate(r *hxlib.Run, emit func(hxlib.Case)) {
 							names = append(names, nm)
 							count("unz-entry", cls)
 						}
+						g.extraUp = 0
 						ops = append(ops, "unz "+hxList(names))
 					}
 				}
@@ -528,7 +927,7 @@ func generate(r *hxlib.Run, emit func(hxlib.Case)) {
 	}
 
 	// ---- malformed stream: implementation + oracle only ---------------------------------------------
-	for ci := 0; ci < r.Budget(12, 200); ci++ {
+	for ci := 0; ci < r.Budget(15, 200); ci++ {
 		rootRel := pick(rng, rootRels)
 		comp := []string{"fst", "ds", "upd"}[ci%3]
 		emitCase(r, emit, comp, rootRel, "plain", "", true, "malformed", func(g *gctx) []string {
@@ -536,7 +935,14 @@ func generate(r *hxlib.Run, emit func(hxlib.Case)) {
 			var ops []string
 			for i := 0; i < 8; i++ {
 				var name string
-				switch rng.Intn(7) {
+				switch rng.Intn(10) {
+				case 7:
+					// NUL in place of the separator, and after the parent reference (C-string truncation: "..\x00" read as "..")
+					name = strings.Join(g.climbSegs(g.depth+1+rng.Intn(3)), pick(rng, []string{"\x00", "\x00/", "/\x00"}))
+				case 8:
+					name = pick(rng, []string{"sub", "a"}) + "/" + strings.Repeat("..\x00/", g.depth+3) + pick(rng, []string{"x", g.rootName + "-other/evil"})
+				case 9:
+					name = strings.Repeat("../", g.depth+2) + "mirror/" + rootTok + "/x\x00"
 				case 5:
 					name = "ok/a\x00b/" + pick(rng, insidePool) // stays inside the root: the OS refuses the name
 				case 6:
